@@ -270,7 +270,7 @@ def ClosCode (scc : Scope) (ps : List Nat) (body : Stmt) (res : XExpr Nat)
 /-- the literal is well scoped where it stands -/
 def ClosWS (scc : Scope) (ps : List Nat) (body : Stmt) (res : XExpr Nat) : Prop :=
   ∃ vs, Covers scc vs ∧ body.wellScoped (ps.reverse ++ vs) = true ∧
-    res.all ((body.declared (ps.reverse ++ vs)).contains ·) = true ∧ body.inDom = true
+    res.all ((body.declared (ps.reverse ++ vs)).contains ·) = true
 
 /-- related values: equal ints; a closure and a function value whose cloned frame holds the cells of the
     closure's environment -/
@@ -948,7 +948,7 @@ theorem call_enter {β : Beta} {stS : SSt} {stM : MSt} (hs : StoreRel β stS stM
 /-- the statement level: from related states, a well-scoped statement and its resolved code run to related results -/
 def SimStmt (f : Nat) : Prop :=
   ∀ (s : Stmt) (vs : List Nat) (sc : Scope) (ρ : Env) (fr : Fr) (β : Beta) (stS : SSt) (stM : MSt),
-    s.wellScoped vs = true → s.inDom = true → Covers sc vs → ScopeOK sc → fr.anc.Pure →
+    s.wellScoped vs = true → Covers sc vs → ScopeOK sc → fr.anc.Pure →
     EnvRel β ρ sc fr.data fr.anc → StoreRel β stS stM →
     RRel (Post β sc fr stM.store.length (compile sc s).2) (execS f s ρ stS)
       (execM .yaegi f (compile sc s).1 fr stM)
@@ -964,7 +964,7 @@ def SimFor (f : Nat) : Prop :=
   ∀ (x : Nat) (c : XCond Nat) (py : Nat) (pe : XExpr Nat) (body : Stmt) (vs : List Nat) (sc : Scope) (ρ : Env)
     (fr : Fr) (β : Beta) (stS : SSt) (stM : MSt) (l : Nat),
     c.all ((x :: vs).contains ·) = true → (x :: vs).contains py = true → pe.all ((x :: vs).contains ·) = true →
-    body.wellScoped (x :: vs) = true → body.inDom = true →
+    body.wellScoped (x :: vs) = true →
     Covers sc vs → ScopeOK sc → fr.anc.Pure → EnvRel β ρ sc fr.data fr.anc → StoreRel β stS stM →
     LoopVar β stS stM l (fr.data sc.next) →
     RRel (Post β sc fr stM.store.length sc) (forS f x c py pe body ρ l stS)
@@ -978,7 +978,7 @@ def rngScope (sc : Scope) (x : Nat) : Scope := (Scope.declare { sc with next := 
 def SimRng (f : Nat) : Prop :=
   ∀ (x : Nat) (body : Stmt) (vs : List Nat) (sc : Scope) (ρ : Env) (fr : Fr) (β : Beta) (stS : SSt) (stM : MSt)
     (N i : Val),
-    body.wellScoped (x :: vs) = true → body.inDom = true →
+    body.wellScoped (x :: vs) = true →
     Covers sc vs → ScopeOK sc → fr.anc.Pure → EnvRel β ρ sc fr.data fr.anc → StoreRel β stS stM →
     RRel (Post β sc fr stM.store.length sc) (rngS f x body ρ N i stS)
       (rngM .yaegi f (sc.next + 2) (compile (rngScope sc x) body).1 (.val N) i fr stM)
@@ -1013,11 +1013,11 @@ theorem StoreRel.emit {β : Beta} {stS : SSt} {stM : MSt} (h : StoreRel β stS s
 
 theorem sim_zero : SimStmt 0 ∧ SimFor 0 ∧ SimRng 0 := by
   refine ⟨?_, ?_, ?_⟩
-  · intro s vs sc ρ fr β stS stM _ _ _ _ _ _ _
+  · intro s vs sc ρ fr β stS stM _ _ _ _ _ _
     simp only [execS, execM, RRel]
-  · intro x c py pe body vs sc ρ fr β stS stM l _ _ _ _ _ _ _ _ _ _ _
+  · intro x c py pe body vs sc ρ fr β stS stM l _ _ _ _ _ _ _ _ _ _
     simp only [forS, forM, RRel]
-  · intro x body vs sc ρ fr β stS stM N i _ _ _ _ _ _ _
+  · intro x body vs sc ρ fr β stS stM N i _ _ _ _ _ _
     simp only [rngS, rngM, RRel]
 
 /-- calls -/
@@ -1052,13 +1052,13 @@ theorem sim_call {f : Nat} (ihS : SimStmt f) (d : Bool) (x g : Nat) (args : List
         cases vM with
         | int b => exact False.elim g3
         | fn np nslots cbody cres cap =>
-          obtain ⟨scc, dd, anc, hcap, hpure, hokc, hec, ⟨hnp, hcb, hns, hcr⟩, ⟨vsc, hcov, hwb, hwr, hbc⟩⟩ := g3
+          obtain ⟨scc, dd, anc, hcap, hpure, hokc, hec, ⟨hnp, hcb, hns, hcr⟩, ⟨vsc, hcov, hwb, hwr⟩⟩ := g3
           simp only [calleeS, calleeM, g1, g2, res_of_lookup hl, hnp, ← hlen]
           by_cases hn : ps.length = vsS.length
           · simp only [hn, if_true]
             subst hcap
             obtain ⟨hle, hfresh, hgrow, hst, hanc, henv⟩ := call_enter hs hec ha hn nslots
-            have hbody := ihS body (ps.reverse ++ vsc) (scc.pushFunc ps) _ _ _ _ _ hwb hbc (hcov.pushFunc ps)
+            have hbody := ihS body (ps.reverse ++ vsc) (scc.pushFunc ps) _ _ _ _ _ hwb (hcov.pushFunc ps)
               (ScopeOK.pushFunc scc ps) (by rw [hanc]; exact hpure) henv hst
             rw [← hcb] at hbody
             refine RRel.bind (RRel.bind hbody (Q := fun (a : SVal × SSt) (b : MVal × MSt) =>
@@ -1225,7 +1225,6 @@ theorem sim_again {f : Nat} (ihF : SimFor f) (x : Nat) (c : XCond Nat) (py : Nat
     (vs : List Nat) (sc : Scope) (ρ ρb : Env) (fr : Fr) (β : Beta) (stS : SSt) (stM : MSt) (l cM : Nat)
     (hwc : c.all ((x :: vs).contains ·) = true) (hwpy : (x :: vs).contains py = true)
     (hwpe : pe.all ((x :: vs).contains ·) = true) (hwb : body.wellScoped (x :: vs) = true)
-    (hbc : body.inDom = true)
     (hc : Covers sc vs) (hok : ScopeOK sc) (hp : fr.anc.Pure) (he : EnvRel β ρ sc fr.data fr.anc)
     (hs : StoreRel β stS stM) (hl : β l = some cM) (hs1 : fr.data (sc.next + 1) = cM)
     (hL : fr.data sc.next < stM.store.length) (hpriv : ∀ l' m, β l' = some m → m ≠ fr.data sc.next) :
@@ -1255,14 +1254,14 @@ theorem sim_again {f : Nat} (ihF : SimFor f) (x : Nat) (c : XCond Nat) (py : Nat
   | ok w =>
     obtain ⟨stS', stM', e1, e2, hs3, hlv3, hlen⟩ := for_post hp he hs2 hc hlv2 py hwpy w
     simp only [e1, e2, Res.bind]
-    have := ihF x c py pe body vs sc ρ fr β stS' stM' stS.store.length hwc hwpy hwpe hwb hbc hc hok hp he hs3 hlv3
+    have := ihF x c py pe body vs sc ρ fr β stS' stM' stS.store.length hwc hwpy hwpe hwb hc hok hp he hs3 hlv3
     refine this.mono (fun a b hpost => ?_)
     exact Post.trans (Beta.le_refl _) (FreshExt.refl _ _) (by rw [hlen]; simp only [MSt.write, List.length_set]; exact Nat.le_refl _)
       (Nat.le_refl _) rfl (fun _ _ => rfl) hpost
 
 /-- one more unit of fuel: the iterations of a three-clause loop -/
 theorem sim_for_step {f : Nat} (ihS : SimStmt f) (ihF : SimFor f) : SimFor (f + 1) := by
-  intro x c py pe body vs sc ρ fr β stS stM l hwc hwpy hwpe hwb hbc hc hok hp he hs hlv
+  intro x c py pe body vs sc ρ fr β stS stM l hwc hwpy hwpe hwb hc hok hp he hs hlv
   rw [forS_succ, forM_succ]
   have hcond : (c.map (sc.declare x).res).eval (lookM fr stM) = c.eval (lookS ((x, l) :: ρ) stS) := by
     rw [XCond.eval_map]
@@ -1308,7 +1307,7 @@ theorem sim_for_step {f : Nat} (ihS : SimStmt f) (ihF : SimFor f) : SimFor (f + 
           obtain ⟨l1, m1, h1, h2, h3⟩ := he' y a hy
           exact ⟨l1, m1, by simp only [find_cons, e, if_false, h1], h2, h3⟩
       have hbody := ihS body (x :: vs) ((sc.declare x).declare x) ((x, l) :: ρ)
-        ⟨fr.data.put (sc.next + 1) stM.store.length, fr.anc, fr.id⟩ (β.ext l stM.store.length) stS _ hwb hbc hc2 hok2 hp he1 hs1
+        ⟨fr.data.put (sc.next + 1) stM.store.length, fr.anc, fr.id⟩ (β.ext l stM.store.length) stS _ hwb hc2 hok2 hp he1 hs1
       refine hbody.bind ?_
       rintro ⟨sig, ρb, stSb⟩ ⟨sig', frb, stMb⟩ ⟨β2, w⟩
       have hn1 : stM.store.length + 1 ≤ stMb.store.length := by
@@ -1346,7 +1345,7 @@ theorem sim_for_step {f : Nat} (ihS : SimStmt f) (ihF : SimFor f) : SimFor (f + 
             rw [hm] at this; cases this
             exact hlv.priv l' m hb
           | none => have := hfr2 l' m hm hb; omega
-        have := sim_again ihF x c py pe body vs sc ρ ρb frb β2 stSb stMb l stM.store.length hwc hwpy hwpe hwb hbc hc hok
+        have := sim_again ihF x c py pe body vs sc ρ ρb frb β2 stSb stMb l stM.store.length hwc hwpy hwpe hwb hc hok
           (by rw [hanc]; exact hp) (by rw [hanc]; exact he.mono hle2 hok hkeep) w.store
           (w.le l _ (by simp only [Beta.ext, if_true])) hs1' (by rw [hL]; omega) hpriv
         refine this.mono (fun a b hq => ?_)
@@ -1371,7 +1370,7 @@ theorem loopVarKey_yaegi (sb : Nat) (i : Val) (fr : Fr) (st : MSt) :
 
 /-- one more unit of fuel: the iterations of a range loop -/
 theorem sim_rng_step {f : Nat} (ihS : SimStmt f) (ihR : SimRng f) : SimRng (f + 1) := by
-  intro x body vs sc ρ fr β stS stM N i hwb hbc hc hok hp he hs
+  intro x body vs sc ρ fr β stS stM N i hwb hc hok hp he hs
   simp only [rngS, rngM, Bound.get]
   by_cases hlt : BitVec.slt i N = true
   · simp only [hlt, if_true, loopVarKey_yaegi, setSlot]
@@ -1407,7 +1406,7 @@ theorem sim_rng_step {f : Nat} (ihS : SimStmt f) (ihR : SimRng f) : SimRng (f + 
         exact ⟨l1, m1, by simp only [find_cons, e, if_false, h1], h2, h3⟩
     have hbody := ihS body (x :: vs) (rngScope sc x) ((x, stS.store.length) :: ρ)
       ⟨fr.data.put (sc.next + 2) stM.store.length, fr.anc, fr.id⟩ (β.ext stS.store.length stM.store.length) _ _
-      hwb hbc hc2 hok2 hp he1 hs1
+      hwb hc2 hok2 hp he1 hs1
     refine hbody.bind ?_
     rintro ⟨sig, ρb, stSb⟩ ⟨sig', frb, stMb⟩ ⟨β2, w⟩
     have hpost : Post β sc fr stM.store.length (compile (rngScope sc x) body).2 (sig, ρb, stSb) (sig', frb, stMb) :=
@@ -1418,7 +1417,7 @@ theorem sim_rng_step {f : Nat} (ihS : SimStmt f) (ihR : SimRng f) : SimRng (f + 
     have again : RRel (Post β sc fr stM.store.length sc) (rngS f x body ρ N (i + 1) stSb)
         (rngM .yaegi f (sc.next + 2) (compile (rngScope sc x) body).1 (.val N) (i + 1) frb stMb) := by
       obtain ⟨β3, w3⟩ := hpost
-      have := ihR x body vs sc ρ frb β3 stSb stMb N (i + 1) hwb hbc hc hok (by rw [w3.anc]; exact hp)
+      have := ihR x body vs sc ρ frb β3 stSb stMb N (i + 1) hwb hc hok (by rw [w3.anc]; exact hp)
         (by rw [w3.anc]; exact he.mono w3.le hok w3.keep) w3.store
       exact this.mono (fun _ _ hq => Post.trans w3.le w3.fresh w3.grow (Nat.le_refl _) w3.anc w3.keep hq)
     cases sig <;> cases sig' <;> try exact False.elim w.sig
@@ -1432,12 +1431,12 @@ theorem sim_rng_step {f : Nat} (ihS : SimStmt f) (ihR : SimRng f) : SimRng (f + 
 /-- a sub-statement that is a block of its own (`{ … }`, a branch of `if`): the declarations made inside are gone
     afterwards, in the semantics by restoring the environment, in the model by restoring the scope -/
 theorem sim_inner {f : Nat} (ihS : SimStmt f) (s : Stmt) (vs : List Nat) (sc0 sc sc2 : Scope) (ρ : Env) (fr : Fr)
-    (β : Beta) (stS : SSt) (stM : MSt) (hw : s.wellScoped vs = true) (hb : s.inDom = true) (hok : ScopeOK sc0)
+    (β : Beta) (stS : SSt) (stM : MSt) (hw : s.wellScoped vs = true) (hok : ScopeOK sc0)
     (hp : fr.anc.Pure) (he : EnvRel β ρ sc0 fr.data fr.anc) (hs : StoreRel β stS stM)
     (hcur : ∀ x, sc.lookup x = sc0.lookup x) (hcur2 : ∀ x, sc2.lookup x = sc0.lookup x)
     (hcov : Covers sc vs) (hoks : ScopeOK sc) (hnext : sc0.next ≤ sc.next) :
     RRel (Post β sc0 fr stM.store.length sc2) ((execS f s ρ stS).bind (leave ρ)) (execM .yaegi f (compile sc s).1 fr stM) := by
-  have h := ihS s vs sc ρ fr β stS stM hw hb hcov hoks hp (he.congr_lookup hcur) hs
+  have h := ihS s vs sc ρ fr β stS stM hw hcov hoks hp (he.congr_lookup hcur) hs
   rw [← Res.bind_ok (execM .yaegi f (compile sc s).1 fr stM)]
   refine h.bind ?_
   rintro ⟨sig, ρ1, stS1⟩ ⟨sig', fr1, stM1⟩ hpost
@@ -1448,21 +1447,20 @@ theorem sim_inner {f : Nat} (ihS : SimStmt f) (s : Stmt) (vs : List Nat) (sc0 sc
 
 /-- one more unit of fuel: statements -/
 theorem sim_stmt_step {f : Nat} (ihS : SimStmt f) (ihF : SimFor f) (ihR : SimRng f) : SimStmt (f + 1) := by
-  intro s vs sc ρ fr β stS stM hw hb hc hok hp he hs
+  intro s vs sc ρ fr β stS stM hw hc hok hp he hs
   cases s with
   | skip => exact Post.here he hs trivial
   | brk => exact Post.here he hs trivial
   | cont => exact Post.here he hs trivial
   | seq a b =>
     simp only [Stmt.wellScoped, Bool.and_eq_true] at hw
-    simp only [Stmt.inDom, Bool.and_eq_true] at hb
-    have ha := ihS a vs sc ρ fr β stS stM hw.1 hb.1 hc hok hp he hs
+    have ha := ihS a vs sc ρ fr β stS stM hw.1 hc hok hp he hs
     simp only [execS, execM, compile]
     refine ha.bind ?_
     rintro ⟨sig, ρ1, stS1⟩ ⟨sig', fr1, stM1⟩ ⟨β1, w⟩
     cases sig <;> cases sig' <;> try exact False.elim w.sig
     · simp only [onNormal]
-      have hb' := ihS b (a.declared vs) (compile sc a).2 ρ1 fr1 β1 stS1 stM1 hw.2 hb.2 (compile_covers a sc vs hc)
+      have hb' := ihS b (a.declared vs) (compile sc a).2 ρ1 fr1 β1 stS1 stM1 hw.2 (compile_covers a sc vs hc)
         (compile_scopeOK a sc hok) (by rw [w.anc]; exact hp) (by rw [w.anc]; exact w.env rfl) w.store
       exact hb'.mono (fun _ _ h => Post.trans w.le w.fresh w.grow (compile_next_le a sc) w.anc w.keep h)
     · exact Post.nonnormal (fun h => by cases h) ⟨β1, w⟩
@@ -1486,7 +1484,7 @@ theorem sim_stmt_step {f : Nat} (ihS : SimStmt f) (ihF : SimFor f) (ihR : SimRng
     simp only [Stmt.wellScoped, Bool.and_eq_true, Bool.or_eq_true] at hw
     simp only [execS, execM, compile]
     refine store_rel d x hp hok he hs ?_ ?_
-    · exact ⟨sc, fr.data, fr.anc, rfl, hp, hok, he, ⟨rfl, rfl, rfl, rfl⟩, ⟨vs, hc, hw.1.1, hw.1.2, hb⟩⟩
+    · exact ⟨sc, fr.data, fr.anc, rfl, hp, hok, he, ⟨rfl, rfl, rfl, rfl⟩, ⟨vs, hc, hw.1.1, hw.1.2⟩⟩
     · cases d with
       | true => exact Or.inl rfl
       | false => exact Or.inr (hc x (by simpa using hw.2))
@@ -1494,10 +1492,9 @@ theorem sim_stmt_step {f : Nat} (ihS : SimStmt f) (ihF : SimFor f) (ihR : SimRng
   | block s =>
     simp only [Stmt.wellScoped] at hw
     simp only [execS, execM, compile]
-    exact sim_inner ihS s vs sc sc _ ρ fr β stS stM hw hb hok hp he hs (fun _ => rfl) (fun _ => rfl) hc hok (Nat.le_refl _)
+    exact sim_inner ihS s vs sc sc _ ρ fr β stS stM hw hok hp he hs (fun _ => rfl) (fun _ => rfl) hc hok (Nat.le_refl _)
   | ite c t e =>
     simp only [Stmt.wellScoped, Bool.and_eq_true] at hw
-    simp only [Stmt.inDom, Bool.and_eq_true] at hb
     simp only [execS, execM, compile]
     rw [cond_agree hp he hs hc c hw.1.1]
     cases c.eval (lookS ρ stS) with
@@ -1505,9 +1502,9 @@ theorem sim_stmt_step {f : Nat} (ihS : SimStmt f) (ihF : SimFor f) (ihR : SimRng
     | ok b =>
       cases b with
       | true =>
-        exact sim_inner ihS t vs sc sc _ ρ fr β stS stM hw.1.2 hb.1 hok hp he hs (fun _ => rfl) (fun _ => rfl) hc hok (Nat.le_refl _)
+        exact sim_inner ihS t vs sc sc _ ρ fr β stS stM hw.1.2 hok hp he hs (fun _ => rfl) (fun _ => rfl) hc hok (Nat.le_refl _)
       | false =>
-        exact sim_inner ihS e vs sc (sc.leave (compile sc t).2) _ ρ fr β stS stM hw.2 hb.2 hok hp he hs (fun _ => rfl)
+        exact sim_inner ihS e vs sc (sc.leave (compile sc t).2) _ ρ fr β stS stM hw.2 hok hp he hs (fun _ => rfl)
           (fun _ => rfl) (hc.leave _) (hok.leave (compile_next_le t sc)) (compile_next_le t sc)
   | «while» c body =>
     have hw0 := hw
@@ -1521,12 +1518,12 @@ theorem sim_stmt_step {f : Nat} (ihS : SimStmt f) (ihF : SimFor f) (ihR : SimRng
       | false =>
         exact Post.exit hok he (fun _ => rfl) (fun _ h => h) (Post.here (sig := .normal) (sig' := .normal) he hs trivial)
       | true =>
-        have hbd := ihS body vs sc ρ fr β stS stM hw.2 hb hc hok hp he hs
+        have hbd := ihS body vs sc ρ fr β stS stM hw.2 hc hok hp he hs
         refine hbd.bind ?_
         rintro ⟨sig, ρ1, stS1⟩ ⟨sig', fr1, stM1⟩ ⟨β1, w⟩
         have again : RRel (Post β sc fr stM.store.length (sc.leave (compile sc body).2))
             (execS f (.while c body) ρ stS1) (execM .yaegi f (.while (c.map sc.res) (compile sc body).1) fr1 stM1) := by
-          have := ihS (.while c body) vs sc ρ fr1 β1 stS1 stM1 hw0 hb hc hok (by rw [w.anc]; exact hp)
+          have := ihS (.while c body) vs sc ρ fr1 β1 stS1 stM1 hw0 hc hok (by rw [w.anc]; exact hp)
             (by rw [w.anc]; exact he.mono w.le hok w.keep) w.store
           simp only [compile] at this
           exact this.mono (fun _ _ h => Post.trans w.le w.fresh w.grow (Nat.le_refl _) w.anc w.keep h)
@@ -1538,8 +1535,6 @@ theorem sim_stmt_step {f : Nat} (ihS : SimStmt f) (ihF : SimFor f) (ihR : SimRng
   | forc x init c py pe body =>
     simp only [Stmt.wellScoped, Bool.and_eq_true] at hw
     obtain ⟨⟨⟨⟨hwi, hwc⟩, hwpy⟩, hwpe⟩, hwb⟩ := hw
-    simp only [Stmt.inDom, Bool.and_eq_true] at hb
-    have hb := hb.2
     simp only [execS, execM, compile]
     rw [expr_agree hp he hs hc init hwi]
     cases init.eval (lookS ρ stS) with
@@ -1561,7 +1556,7 @@ theorem sim_stmt_step {f : Nat} (ihS : SimStmt f) (ihF : SimFor f) (ihR : SimRng
         exact ⟨hs.undef (Nat.le_refl _), fun l' m hm e => hs.notimg (Nat.le_refl _) (e ▸ hm), .int v, .int v,
           by simp only [SSt.push, List.getElem?_concat_length], by simp only [MSt.push, List.getElem?_concat_length], rfl⟩
       have := ihF x c py pe body vs sc ρ ⟨fr.data.put sc.next stM.store.length, fr.anc, fr.id⟩ β _ _ stS.store.length
-        hwc hwpy hwpe hwb hb hc hok hp (he.mono (Beta.le_refl _) hok (fun i hi => put_keep _ _ _ _ (by omega))) hs1 hlv
+        hwc hwpy hwpe hwb hc hok hp (he.mono (Beta.le_refl _) hok (fun i hi => put_keep _ _ _ _ (by omega))) hs1 hlv
       refine this.mono (fun a b hq => ?_)
       obtain ⟨sig, ρ1, stS1⟩ := a
       obtain ⟨sig', fr1, stM1⟩ := b
@@ -1573,17 +1568,16 @@ theorem sim_stmt_step {f : Nat} (ihS : SimStmt f) (ihF : SimFor f) (ihR : SimRng
       exact ⟨β', ⟨w.le, w.fresh, w.grow, w.store, w.anc, w.keep, w.sig, fun h => (w.env h).congr_lookup (fun _ => rfl)⟩⟩
   | rng x n body =>
     simp only [Stmt.wellScoped, Bool.and_eq_true] at hw
-    simp only [Stmt.inDom, Bool.and_eq_true, Bool.not_eq_true'] at hb
-    obtain ⟨⟨hb1, _⟩, hb2⟩ := hb
-    have hb : n.isVar = false ∧ body.inDom = true := ⟨hb1, hb2⟩
     simp only [execS, execM, compile]
-    -- the bound is not a bare variable: the hidden slot holds a value of its own
+    -- the bound is copied when the loop is entered (231dea3): also for a bare variable
     have hbound : boundM .yaegi fr stM (n.map sc.res) =
         match (n.map sc.res).eval (lookM fr stM) with
         | .ok N => .ok (.val N)
         | .error fl => .error fl := by
       cases n with
-      | var a => simp only [XExpr.isVar] at hb; exact absurd hb.1 (by decide)
+      | var a =>
+        simp only [XExpr.map, boundM, Mech.yaegi, Bool.false_eq_true, if_false, XExpr.eval]
+        cases lookM fr stM (sc.res a) <;> rfl
       | lit v => rfl
       | bin op l r => rfl
       | neg a => rfl
@@ -1592,7 +1586,7 @@ theorem sim_stmt_step {f : Nat} (ihS : SimStmt f) (ihF : SimFor f) (ihR : SimRng
     cases n.eval (lookS ρ stS) with
     | error fl => exact ⟨rfl, hs.out⟩
     | ok N =>
-      have := ihR x body vs sc ρ fr β stS stM N 0 hw.2 hb.2 hc hok hp he hs
+      have := ihR x body vs sc ρ fr β stS stM N 0 hw.2 hc hok hp he hs
       refine this.mono (fun a b hq => ?_)
       obtain ⟨β', w⟩ := hq
       exact ⟨β', ⟨w.le, w.fresh, w.grow, w.store, w.anc, w.keep, w.sig, fun h => (w.env h).congr_lookup (fun _ => rfl)⟩⟩
@@ -1619,70 +1613,15 @@ theorem sim : ∀ f, SimStmt f ∧ SimFor f ∧ SimRng f := by
 
 /-! ## H. whole programs -/
 
-theorem dropRedecl_id (x : Nat) : ∀ s : Stmt, s.topDeclares x = false → dropRedecl x s = s := by
-  intro s
-  induction s with
-  | seq a b iha ihb =>
-    intro h
-    simp only [Stmt.topDeclares, Bool.or_eq_false_iff] at h
-    simp only [dropRedecl, iha h.1, ihb h.2]
-  | set d y e =>
-    intro h
-    cases d with
-    | false => rfl
-    | true =>
-      simp only [Stmt.topDeclares, beq_eq_false_iff_ne] at h
-      simp only [dropRedecl, h, if_false]
-  | setFn d y ps body res _ =>
-    intro h
-    cases d with
-    | false => rfl
-    | true =>
-      simp only [Stmt.topDeclares, beq_eq_false_iff_ne] at h
-      simp only [dropRedecl, h, if_false]
-  | setCall d y f args =>
-    intro h
-    cases d with
-    | false => rfl
-    | true =>
-      simp only [Stmt.topDeclares, beq_eq_false_iff_ne] at h
-      simp only [dropRedecl, h, if_false]
-  | _ => intro _; rfl
-
-/-- inside the domain there is no loop-variable redeclaration for cfg.go to turn into a `nop` -/
-theorem prepare_id : ∀ s : Stmt, s.inDom = true → prepare s = s := by
-  intro s
-  induction s with
-  | seq a b iha ihb =>
-    intro h
-    simp only [Stmt.inDom, Bool.and_eq_true] at h
-    simp only [prepare, iha h.1, ihb h.2]
-  | setFn d x ps body res ih => intro h; simp only [Stmt.inDom] at h; simp only [prepare, ih h]
-  | block s ih => intro h; simp only [Stmt.inDom] at h; simp only [prepare, ih h]
-  | ite c t e iht ihe =>
-    intro h
-    simp only [Stmt.inDom, Bool.and_eq_true] at h
-    simp only [prepare, iht h.1, ihe h.2]
-  | «while» c body ih => intro h; simp only [Stmt.inDom] at h; simp only [prepare, ih h]
-  | forc x init c py pe body ih =>
-    intro h
-    simp only [Stmt.inDom, Bool.and_eq_true, Bool.not_eq_true'] at h
-    simp only [prepare, ih h.2, dropRedecl_id x body h.1]
-  | rng x n body ih =>
-    intro h
-    simp only [Stmt.inDom, Bool.and_eq_true, Bool.not_eq_true'] at h
-    simp only [prepare, ih h.2, dropRedecl_id x body h.1.2]
-  | _ => intro _; rfl
-
 /-- for every well-scoped program and every fuel: the frame mechanism and the scoping semantics give the same result
     (both out of fuel, or the same output and the same kind of end) -/
-theorem run_agree (p : Stmt) (fuel : Nat) (h : p.wellScoped [] = true) (hb : p.inDom = true) :
-    runM .yaegi fuel p = runS fuel p := by
+theorem run_agree (p : Stmt) (fuel : Nat) (h : p.wellScoped [] = true) : runM .yaegi fuel p = runS fuel p := by
   have hsim := (sim fuel).1 p [] ⟨[], 0, []⟩ [] ⟨fun i => i, .nil, 0⟩ (fun _ => none) ⟨[], []⟩
-    ⟨zeros (compile ⟨[], 0, []⟩ p).2.next, [⟨fun i => i, .nil⟩], []⟩ h hb
+    ⟨zeros (compile ⟨[], 0, []⟩ p).2.next, [⟨fun i => i, .nil⟩], []⟩ h
     (fun x hx => by cases hx) (fun x i hx => by cases hx) trivial (fun x a hx => by cases hx)
     ⟨rfl, fun l l' m h1 => (by cases h1), fun l m h1 => (by cases h1)⟩
-  simp only [runM, runS, prepare_id p hb]
+  have hprep : prepare .yaegi p = p := rfl
+  simp only [runM, runS, hprep]
   cases r1 : execS fuel p [] ⟨[], []⟩ <;>
     cases r2 : execM .yaegi fuel (compile ⟨[], 0, []⟩ p).1 ⟨fun i => i, .nil, 0⟩
       ⟨zeros (compile ⟨[], 0, []⟩ p).2.next, [⟨fun i => i, .nil⟩], []⟩ <;>
